@@ -13,7 +13,7 @@ import (
 )
 
 func init() {
-	props["C18"] = &propDef{run: runC18, explanation: "Partial. Decided statically: (O1) every comparator handed to sort.Slice/SliceStable in the metadata package is, on all weak orderings of (time_i, time_j, number_i, number_j), exactly time_i < time_j ∨ (time_i = time_j ∧ number_i < number_j) — the lexicographic anchoring order (finite, exhaustive); the version provider's comparator is a strict order on its single key; (T1) the transformer's purpose switch maps each of the five purposes to its own relationship and covers every purpose the patch validator admits; the key-context table covers every key type the validator admits; (P1) the verification-method literal (id = getObjectID(did, key id), type, controller = did), getObjectID (relative '#id' under @base, did+'#id' otherwise), exactly one append of the method per key and of each reference per purpose, the key-material table per key type, service id/type/endpoint plus copy of every other member; (P2) the metadata field mapping (method metadata, document metadata, published/unpublished operation literals field by field, de-duplication by canonical reference, both lists sorted before use). Not decided: counting statements over arbitrary documents beyond the one-append-per-iteration shape. The context of the key's type is looked up for every key (for-all loop form); each metadata member is stored under conditions on its own source only. The comparator of a sortedness test is held to the same order; the @base context entry is added under exactly the includeBase flag. No equivalent id reported for an unpublished document carries the initial state. canonicalId / equivalentId of a published document are unconditional and the canonical id is always an equivalent id; object ids are decided in concatenation form under both values of the @base flag; the key-material table is evaluated on all assignments of its atoms. Both transformer steps precede every accepting exit; key-type contexts are de-duplicated by equality; the generic transformer stores nothing over the id. Relationship lists start from slices of their own; optional metadata members are stored under a presence test of the whole value; every unpublished operation is listed."}
+	props["C18"] = &propDef{run: runC18, explanation: "Partial. Decided statically: (O1) every comparator handed to sort.Slice/SliceStable in the metadata package is, on all weak orderings of (time_i, time_j, number_i, number_j), exactly time_i < time_j ∨ (time_i = time_j ∧ number_i < number_j) — the lexicographic anchoring order (finite, exhaustive); the version provider's comparator is a strict order on its single key; (T1) the transformer's purpose switch maps each of the five purposes to its own relationship and covers every purpose the patch validator admits; the key-context table covers every key type the validator admits; (P1) the verification-method literal (id = getObjectID(did, key id), type, controller = did), getObjectID (relative '#id' under @base, did+'#id' otherwise), exactly one append of the method per key and of each reference per purpose, the key-material table per key type, service id/type/endpoint plus copy of every other member; (P2) the metadata field mapping (method metadata, document metadata, published/unpublished operation literals field by field, de-duplication by canonical reference, both lists sorted before use). Not decided: counting statements over arbitrary documents beyond the one-append-per-iteration shape. The context of the key's type is looked up for every key (for-all loop form); each metadata member is stored under conditions on its own source only. The comparator of a sortedness test is held to the same order; the @base context entry is added under exactly the includeBase flag. No equivalent id reported for an unpublished document carries the initial state. canonicalId / equivalentId of a published document are unconditional and the canonical id is always an equivalent id; object ids are decided in concatenation form under both values of the @base flag; the key-material table is evaluated on all assignments of its atoms. Both transformer steps precede every accepting exit; key-type contexts are de-duplicated by equality; the generic transformer stores nothing over the id. Relationship lists start from slices of their own; optional metadata members are stored under a presence test of the whole value; every unpublished operation is listed. An empty key context leads to the defaults after the options."}
 }
 
 func (c *Ctx) sortComparators(pkgRel string) []*ssa.Function {
@@ -659,7 +659,57 @@ func runC18(c *Ctx) {
 	} else {
 		c.Unresolved("C18.P1", "processServices")
 	}
-	c.Min("C18.P1", 10)
+	// "no key context configured" means the defaults: after the options have run, the constructor replaces an empty key
+	// context (none given, nil, or a map without entries — what an unset configuration entry yields) by the default one;
+	// with an empty context kept, every document that has a key fails to transform
+	if nw := c.Fn(pDT, "New"); nw != nil {
+		c.Analysed(nw)
+		okD := false
+		detail := "no test of len(keyCtx) against 0 that dominates the constructor's exits"
+		inLoop := map[*ssa.BasicBlock]bool{}
+		for _, l := range naturalLoops(nw) {
+			for b := range l.blocks {
+				inLoop[b] = true
+			}
+		}
+		forEachInstr(nw, func(in ssa.Instruction) {
+			bo, ok := in.(*ssa.BinOp)
+			if !ok || !isCmp(bo.Op) || !strings.HasPrefix(c.Path(bo.X, nil), "len(") || !strings.HasSuffix(c.Path(bo.X, nil), ".keyCtx)") || c.Path(bo.Y, nil) != "0" || inLoop[bo.Block()] {
+				return
+			}
+			for _, r := range returnsOf(nw) {
+				if !bo.Block().Dominates(r.Block()) {
+					return
+				}
+			}
+			// the edge on which the context is empty
+			var zeroTrue bool
+			switch bo.Op {
+			case token.EQL, token.LEQ:
+				zeroTrue = true
+			case token.NEQ, token.GTR:
+				zeroTrue = false
+			default:
+				return
+			}
+			for _, e := range boolEdges(bo, zeroTrue) {
+				forEachInstr(nw, func(i2 ssa.Instruction) {
+					st, isS := i2.(*ssa.Store)
+					if !isS || !e.to.Dominates(st.Block()) {
+						return
+					}
+					if strings.HasSuffix(c.Path(st.Addr, nil), ".keyCtx") && strings.HasSuffix(c.Path(st.Val, nil), ".defaultKeyContextMap") {
+						okD = true
+						detail = "len(keyCtx) == 0 after the options leads to the default key context"
+					}
+				})
+			}
+		})
+		c.Check("C18.P1", "key-context:defaults-when-none-configured", okD, nw.Pos(), detail)
+	} else {
+		c.Unresolved("C18.P1", "didtransformer.New")
+	}
+	c.Min("C18.P1", 11)
 
 	// ---------------- S1 results do not alias the transformer's own state
 	{
@@ -1366,7 +1416,7 @@ func (c *Ctx) metadataMapping(pMeta string) {
 		"updated":            regexp.MustCompile(`^\(\$1\.VersionID (!=|==) ""\)=(true|false)$|^\(len\(\$1\.VersionID\) (!=|==|>|<=) 0\)=(true|false)$|^\((\$1\.UpdatedTime (>|!=|==|<=) 0|0 (<|!=|==|>=) \$1\.UpdatedTime|\$1\.UpdatedTime >= 1)\)=(true|false)$`),
 		"anchorOrigin":       regexp.MustCompile(`^\(\$1\.AnchorOrigin (!=|==) nil(:[^)]*)?\)=(true|false)$`),
 	}
-	loopControl := regexp.MustCompile(`^\((len\(.*\) <= ι|ι < len\(.*\))\)=true$`)
+	loopControl := regexp.MustCompile(`^\((len\(.*\) <= ι|ι < len\(.*\)|\d+ <= ι|ι < \d+)\)=true$`)
 	errNilRe := regexp.MustCompile(`^\([^ ]*versions/1_0/doctransformer/metadata\.[A-Za-z]+\(.*\)#\d == nil\)=true$`)
 	entryGuard := func(cnd string) bool {
 		// (the validation phase succeeded)
@@ -1656,7 +1706,7 @@ func (c *Ctx) unpublishedAllListedRule(rule, pMeta string) {
 		c.Unresolved(rule, "metadata.getUnpublishedOperations")
 		return
 	}
-	loopControl := regexp.MustCompile(`^\((len\(.*\) <= ι|ι < len\(.*\))\)=(true|false)$`)
+	loopControl := regexp.MustCompile(`^\((len\(.*\) <= ι|ι < len\(.*\)|\d+ <= ι|ι < \d+)\)=(true|false)$`)
 	// (a test that the list is not empty holds on every iteration anyway)
 	nonEmpty := regexp.MustCompile(`^\((len\(\$0\) (!=|>) 0|0 (!=|<) len\(\$0\)|len\(\$0\) >= 1|1 <= len\(\$0\)|\$0 != nil:\[\][^)]*)\)=true$|^\((len\(\$0\) (==|<=) 0|0 (==|>=) len\(\$0\)|len\(\$0\) < 1|1 > len\(\$0\)|\$0 == nil:\[\][^)]*)\)=false$`)
 	n := 0
